@@ -199,6 +199,19 @@ func addMoreIntrinsics(m map[string]intrinsic) {
 			return autoUF(e, fn, args)
 		}
 	}
+	// json.Encoder by contract: Encode appends its argument to a ghost list the harness inspects
+	// (zz.JSONEncoded); what the codec writes for it is encoding/json's business (trusted), what fields it
+	// considers is read from the struct tags (zz.JSONTags)
+	m["encoding/json.NewEncoder"] = func(e *Exec, fn *ssa.Function, args []Value) Value {
+		e.stub("model:json.NewEncoder(ghost list of encoded values)")
+		return &PtrV{O: e.newObj(&OpaqueV{N: "json.Encoder"}, "json:encoder")}
+	}
+	m["(*encoding/json.Encoder).SetEscapeHTML"] = func(e *Exec, fn *ssa.Function, args []Value) Value { return nil }
+	m["(*encoding/json.Encoder).SetIndent"] = func(e *Exec, fn *ssa.Function, args []Value) Value { return nil }
+	m["(*encoding/json.Encoder).Encode"] = func(e *Exec, fn *ssa.Function, args []Value) Value {
+		e.ghost["json.encoded"] = append(e.ghost["json.encoded"], args[1])
+		return &IfaceV{}
+	}
 	// (*rsa.PublicKey).Size: executed from its (one-line) source: (N.BitLen()+7)/8
 	m["(*crypto/rsa.PublicKey).Size"] = func(e *Exec, fn *ssa.Function, args []Value) Value {
 		if len(fn.Blocks) == 0 {
